@@ -240,6 +240,7 @@ void run_spki(const J &plan, RunCtx &ctx)
 	const J &ops = plan["ops"];
 	unsigned qevery = (unsigned)plan.geti("query_every", 1);
 	size_t maxn = 0;
+	int rev[2] = {0, 0};
 	J per_op = J::arr();
 	for (size_t i = 0; i < ops.size(); i++) {
 		uint64_t c0 = simalloc_calls();
@@ -252,6 +253,23 @@ void run_spki(const J &plan, RunCtx &ctx)
 		apply_op(R, ops[i], i);
 		if (R.model.recs.size() > maxn)
 			maxn = R.model.recs.size();
+		{
+			// resize reversal (sizes only, no knowledge of the hash table's state): above a growth threshold, then inside the
+			// band in which a shrink is under way but cannot have finished, then above the growth threshold again
+			size_t n = R.model.recs.size();
+			for (int lv = 0; lv < 2; lv++) {
+				size_t grow = lv ? 64 : 32, lo = lv ? 17 : 9, hi = lv ? 31 : 15;
+				int &st = rev[lv];
+				if (st == 0 && n > grow && (lv || maxn <= 64))
+					st = 1;
+				else if (st == 1 && n >= lo && n <= hi)
+					st = 2;
+				else if (st == 2 && n < lo)
+					st = 0;
+				else if (st == 2 && n > 2 * grow)
+					st = 3;
+			}
+		}
 		if (qevery && (i % qevery) == qevery - 1)
 			check_lookups(R, ops[i].gets("op").c_str());
 		per_op.push((long long)(simalloc_calls() - c0));
@@ -264,6 +282,10 @@ void run_spki(const J &plan, RunCtx &ctx)
 		ctx.count("probe_hash_grow2");
 	if (maxn > 32 && R.model.recs.size() < 8)
 		ctx.count("probe_hash_shrink");
+	if (rev[0] == 3)
+		ctx.count("probe_hash_regrow_during_shrink");
+	if (rev[1] == 3)
+		ctx.count("probe_hash_regrow_during_shrink2");
 	simalloc_fail_off();
 	ctx.counters["alloc_calls"] = simalloc_calls();
 	ctx.counters["alloc_failures"] = simalloc_failures();
@@ -306,6 +328,21 @@ J gen_spki(uint64_t seed, const J &opts)
 	J ops = J::arr();
 	int nops = 0;
 	int nphases = (int)g.range(1, 6);
+	// per run: how often whole sources are dropped / reloaded (they undo a long walk towards a size), and whether the sizes
+	// follow a resize reversal: grow past a threshold, drain until the table is part-way through shrinking, refill past the
+	// growth threshold again (and the same one level up)
+	unsigned churn = (unsigned)g.pick(std::vector<long long>{0, 1, 3, 10});
+	std::vector<int> forced;
+	if (!opts.geti("small", 0) && g.chance(350)) {
+		churn = g.chance(700) ? 0 : 1;
+		if (g.chance(600))
+			forced = {(int)g.pick(std::vector<long long>{33, 40, 60}), (int)g.range(9, 15), (int)g.pick(std::vector<long long>{66, 70})};
+		else
+			forced = {(int)g.pick(std::vector<long long>{66, 70, 100}), (int)g.range(17, 31), (int)g.pick(std::vector<long long>{130, 140})};
+		if (g.chance(300))
+			forced.push_back((int)g.pick(std::vector<long long>{0, 3, 12, 20}));
+		nphases = (int)forced.size();
+	}
 	auto draw = [&]() { return SpkiRec::make(asns[g.below(asns.size())], (int)g.below((uint64_t)nski), (int)g.below((uint64_t)nspki), (int)g.below(3)); };
 	auto jrec = [&](uint32_t asn, int ski, int spki, int src) {
 		J r = J::arr();
@@ -318,18 +355,18 @@ J gen_spki(uint64_t seed, const J &opts)
 	// keep ids alongside records to serialise them again
 	std::map<SpkiRec, std::array<int, 2>> ids;
 	for (int ph = 0; ph < nphases && nops < maxops; ph++) {
-		int target = targets[g.below(opts.geti("small", 0) ? 6 : 11)];
+		int target = forced.empty() ? targets[g.below(opts.geti("small", 0) ? 6 : 11)] : forced[(size_t)ph];
 		int guard = 0;
 		while ((int)shadow.recs.size() != target && nops < maxops && guard++ < 1000) {
 			bool up = (int)shadow.recs.size() < target;
 			unsigned k = (unsigned)g.below(100);
 			J op = J::obj();
-			if (k < 6) {
+			if (k < 6 && g.below(10) < churn) {
 				int s = (int)g.below(3);
 				op["op"] = "srcrm";
 				op["src"] = s;
 				shadow.src_remove(s);
-			} else if (k < 10) {
+			} else if (k >= 6 && k < 10 && g.below(10) < churn) {
 				int s = (int)g.below(3);
 				op["op"] = "reload";
 				op["src"] = s;
